@@ -1066,11 +1066,15 @@ static size_t ZSTDMT_resize(ZSTDMT_CCtx* mtctx, unsigned nbWorkers)
 {
     if (POOL_resize(mtctx->factory, nbWorkers)) return ERROR(memory_allocation);
     FORWARD_IF_ERROR( ZSTDMT_expandJobsTable(mtctx, nbWorkers) , "");
-    mtctx->bufPool = ZSTDMT_expandBufferPool(mtctx->bufPool, BUF_POOL_MAX_NB_BUFFERS(nbWorkers));
+    /* a pool lost by an earlier resize that failed half-way is created anew */
+    mtctx->bufPool = (mtctx->bufPool == NULL) ? ZSTDMT_createBufferPool(BUF_POOL_MAX_NB_BUFFERS(nbWorkers), mtctx->cMem)
+                                              : ZSTDMT_expandBufferPool(mtctx->bufPool, BUF_POOL_MAX_NB_BUFFERS(nbWorkers));
     if (mtctx->bufPool == NULL) return ERROR(memory_allocation);
-    mtctx->cctxPool = ZSTDMT_expandCCtxPool(mtctx->cctxPool, nbWorkers);
+    mtctx->cctxPool = (mtctx->cctxPool == NULL) ? ZSTDMT_createCCtxPool((int)nbWorkers, mtctx->cMem)
+                                                : ZSTDMT_expandCCtxPool(mtctx->cctxPool, (int)nbWorkers);
     if (mtctx->cctxPool == NULL) return ERROR(memory_allocation);
-    mtctx->seqPool = ZSTDMT_expandSeqPool(mtctx->seqPool, nbWorkers);
+    mtctx->seqPool = (mtctx->seqPool == NULL) ? ZSTDMT_createSeqPool(nbWorkers, mtctx->cMem)
+                                              : ZSTDMT_expandSeqPool(mtctx->seqPool, nbWorkers);
     if (mtctx->seqPool == NULL) return ERROR(memory_allocation);
     ZSTDMT_CCtxParam_setNbWorkers(&mtctx->params, nbWorkers);
     return 0;
